@@ -133,6 +133,7 @@ def c08(ctx):
     c08_ans(ctx)
     range_hists(ctx, ["TypeInv", "StateInv"], "c08")
     ctx.require("inspect_while_inverted")
+    bit_coders(ctx, "c08")
 
 
 @prop("C10")
@@ -153,6 +154,7 @@ def c18(ctx):
     range_hists(ctx, ["TypeInv", "StateInv", "SizesOK", "ExhaustedAfter"], "c18")
     for c in ["sizes_while_inverted", "not_exhausted_checked"]:
         ctx.require(c)
+    bit_coders(ctx, "c18")
 
 
 # ---------------------------------------------------------------------------------------------- models
@@ -236,6 +238,53 @@ def c05(ctx):
     model_cases(ctx, "uniform", "c05", uniform_cfgs(ctx))
     model_cases(ctx, "fast", "c05", fast_cfgs(ctx))
     model_cases(ctx, "leaky", "c05", leaky_cfgs(ctx))
+
+
+# (W, MaxBits) for the bit-level coders
+BITS_QUICK = [(2, 7), (3, 8), (8, 10)]
+BITS_THOROUGH = [(2, 11), (3, 12), (4, 12), (8, 12)]
+BITS_LAWS = ["TypeInv", "L1", "L2", "L3", "L4", "L5", "L6", "L7"]
+
+
+def bit_coders(ctx, mode):
+    for (w, mb) in (BITS_THOROUGH if ctx.tier == "thorough" else BITS_QUICK):
+        cases = os.path.join(ctx.work, "bits_%d.ndjson" % w)
+        st = ctx.tlc("MC_BitCoder", {"W": w, "MaxBits": mb}, invariants=BITS_LAWS + ["Emit"], view="View", emit_to=cases, label="MC_BitCoder_%d" % w)
+        if st["spec_violation"]:
+            ctx.violation("specification law %s fails at W=%d:\n%s" % (st["spec_violation"], w, st.get("counterexample", "")), {"k": "spec", "module": "MC_BitCoder"})
+            continue
+        ctx.vh("replay", mode=mode, infile=cases)
+    for c in ("word_exactly_full", "guard_in_history"):
+        ctx.require(c)
+
+
+def symbol_cases(ctx, kind, maxlen, maxw, mode):
+    cases = os.path.join(ctx.work, "%s_%d_%d.ndjson" % (kind, maxlen, maxw))
+    st = ctx.tlc("MC_Symbol", {"Kind": '"%s"' % kind, "MaxLen": maxlen, "MaxW": maxw}, invariants=["HuffmanLaws", "GolombLaws", "GolombPrefixFree", "Emit"],
+                 emit_to=cases, label="MC_Symbol_%s" % kind)
+    if st["spec_violation"]:
+        ctx.violation("specification law %s fails for %s:\n%s" % (st["spec_violation"], kind, st.get("counterexample", "")), {"k": "spec", "module": "MC_Symbol"})
+        return
+    ctx.vh("replay", mode=mode, infile=cases)
+
+
+@prop("C16")
+def c16(ctx):
+    bit_coders(ctx, "c16")
+    symbol_cases(ctx, "expgolomb", 8, 255, "c16")
+    symbol_cases(ctx, "expgolomb", 16, 70000 if ctx.tier == "thorough" else 3000, "c16")
+    for c in ("expgolomb", "expgolomb_max"):
+        ctx.require(c)
+
+
+@prop("C15")
+def c15(ctx):
+    if ctx.tier == "thorough":
+        symbol_cases(ctx, "huffman", 6, 4, "c15")
+    else:
+        symbol_cases(ctx, "huffman", 5, 4, "c15")
+    for c in ("zero_weight", "tie", "single_symbol"):
+        ctx.require(c)
 
 
 @prop("C17")
